@@ -30,7 +30,9 @@ LEVEL_TEXT = ("Lean 4 theorems for one-axis block plans: concat_den / concat_blo
               "pad_reuse_den (full: reflect/symmetric/wrap = NumPy's periodic extension for EVERY pad width, also wider "
               "than the axis - the repaired pad_reuse assembles each side from alternately reversed copies; defect #16 "
               "fixed), expand_tuple_spec, "
-              "contract_tuple_spec, reshape_merge_den (C-order index preserved when merged chunks tile whole rows). "
+              "contract_tuple_spec, reshape_merge_den and reshape_merge_ones_den (C-order index preserved for the two plans "
+              "reshape_rechunk uses for (R,m)<->(R*m,): whole rows per block / one row per block; every real 2-d<->1-d plan "
+              "is checked to be one of them). "
               "Everything else in the statement (transpose/moveaxis/swapaxes, squeeze/expand_dims, stack/block, "
               "broadcast_to, flip/rot90, tile, other pad modes, tril/triu, diff, the full reshape_rechunk) is validated "
               "against NumPy over irregular chunkings and empty axes, not proved.")
@@ -149,6 +151,23 @@ def case_fn(ctx, inp):
         if bi != bo:
             ctx.fail("reshape_rechunk: input and output blocks (in product order) do not have equal sizes", observed=[ri, ro])
         ctx.branch("reshape_rechunk:" + ("merge" if len(inshape) > len(outshape) else "split" if len(inshape) < len(outshape) else "same-ndim"))
+        # proved checker (reshape_merge_den / reshape_merge_ones_den): a (R, m) <-> (R*m,) plan must have one of the two
+        # shapes for which block-wise C-order reshape is the global reshape
+        two, one = None, None
+        if len(inshape) == 2 and len(outshape) == 1:
+            two, one = ri, ro[0]
+        elif len(inshape) == 1 and len(outshape) == 2:
+            two, one = ro, ri[0]
+        if two is not None and min(two[0] + two[1] + tuple(one)) > 0:
+            rows_c, cols_c = tuple(two[0]), tuple(two[1])
+            m_ = sum(cols_c)
+            whole_rows = len(cols_c) == 1 and tuple(one) == tuple(c * m_ for c in rows_c)
+            ones_rows = all(c == 1 for c in rows_c) and tuple(one) == cols_c * len(rows_c)
+            if whole_rows or ones_rows:
+                ctx.branch("reshape_rechunk:proved-plan:" + ("whole-rows" if whole_rows else "ones"))
+            else:
+                ctx.fail("reshape_rechunk: a (R, m) <-> (R*m,) plan is neither 'whole rows per block' nor 'one row per block'"
+                         " (block-wise reshape would not be the global reshape)", observed=[ri, ro])
     elif op == "pad_chunks":
         import dask.array as da
         from dask.array.creation import get_pad_shapes_chunks
@@ -573,6 +592,13 @@ def generate(ctx):
                 rest = math.prod(t for t in tgt if t != -1)
                 tgt[k] = math.prod(shape) // max(rest, 1)
             yield "fn", {"op": "reshape_rechunk", "inchunks": chunks, "outshape": tgt}
+    for _ in range(ctx.n(80, 1000)):
+        R, m = rng.randint(1, 7), rng.randint(1, 7)
+        rc = rand_comp(rng, R, rng.choice(["ones", "irregular", "uniform", "single"]))
+        if rng.random() < 0.5:
+            yield "fn", {"op": "reshape_rechunk", "inchunks": [rc, rand_comp(rng, m)], "outshape": [R * m]}
+        else:
+            yield "fn", {"op": "reshape_rechunk", "inchunks": [rand_comp(rng, R * m)], "outshape": [R, m]}
     # --- concatenate / stack -------------------------------------------------------------------------------
     for _ in range(ctx.n(110, 2000)):
         nd = rng.randint(1, 3)
